@@ -134,7 +134,8 @@ def check_props(pid, timeout=1500, extra_targets=()):
 
 def parse_assumptions(log, names):
     """Map each `Print Assumptions` block of the coqc output to the theorem printed.
-    The Properties files print assumptions in the order the theorems are stated."""
+    A block is `Closed under the global context` or `Axioms:` followed by entries
+    `<qualified name> : <type>` whose type may continue on indented lines."""
     blocks = []
     cur = None
     for line in log.splitlines():
@@ -145,12 +146,11 @@ def parse_assumptions(log, names):
             cur = []
             blocks.append(cur)
         elif cur is not None:
-            if line.startswith(" ") or line.strip() == "":
-                m = re.match(r"^([A-Za-z_][A-Za-z0-9_.']*)\s*:", line)
-                if m:
-                    cur.append(m.group(1))
-            elif re.match(r"^[A-Za-z_][A-Za-z0-9_.']*\s*:", line) and not line.startswith("COQ"):
-                cur.append(line.split(":")[0].strip())
+            m = re.match(r"^([A-Za-z_][A-Za-z0-9_.']*)\s*(:|$)", line)
+            if m and not line.startswith(("COQ", "File ", "Warning")):
+                cur.append(m.group(1))
+            elif line.startswith((" ", "\t")) or line.strip() == "":
+                continue            # continuation of the previous axiom's type
             else:
                 cur = None
     ax = {}
@@ -163,7 +163,9 @@ def parse_assumptions(log, names):
 def locate_failure(log, pid, thms):
     """Name the theorem(s) whose proof no longer checks, from coqc's error location."""
     failed = []
-    for m in re.finditer(r'File "\./([^"]+)", line (\d+), characters', log):
+    for m in re.finditer(r'File "\./([^"]+)", line (\d+), characters [0-9-]+:\n(Warning|Error)', log):
+        if m.group(3) == "Warning":
+            continue
         f, ln = m.group(1), int(m.group(2))
         path = os.path.join(COQ, f)
         name = None
@@ -209,7 +211,12 @@ def axiom_gate():
     Variable/Hypothesis outside a Section, anywhere in the development."""
     bad = []
     for f in sorted(glob.glob(os.path.join(COQ, "**", "*.v"), recursive=True)):
-        src = strip_comments(open(f).read())
+        if "Tmp_goal_" in f:
+            continue
+        try:
+            src = strip_comments(open(f).read())
+        except OSError:
+            continue            # a scratch file of a concurrent build disappeared
         depth = 0
         for n, line in enumerate(src.splitlines(), 1):
             if SEC_OPEN.match(line):
